@@ -337,11 +337,36 @@ pub fn cleanup(rep: &mut Report, tier: Tier) {
                             // others && a_i.x >= b_i  infeasible  <=>  row i is implied with a margin
                             others.push(Row::le(out[i].a.iter().map(|v| -*v).collect(), -out[i].b));
                             if !feasible(&others, d) && out.len() > 1 {
-                                // diagnose: does the LP layer claim "unbounded" for max a_i.x over the other rows (it is bounded by b_i)?
-                                let rest = q.remove_rows(vec![i]);
-                                let st = rest.solve_linprog(-q.mat.row(i).to_owned(), false);
-                                let class = if st == affinitree::linalg::polyhedron::PolytopeStatus::Unbounded { "redundant-leftover-lp-unbounded" } else { "redundant-leftover" };
-                                rep.viol(idx, class, format!("row {i} of the result {:?} is implied by the others with a margin (LP status for that row: {:?}) | {descr}", rows_f64(&q), st));
+                                // diagnose by replaying the function's own LP queries: did the LP layer answer "unbounded"
+                                // for a row whose maximum over the rows considered at that time is finite?
+                                let mut redundant: Vec<usize> = vec![];
+                                let mut lied = vec![];
+                                for k in (0..nrows).rev() {
+                                    let mut ind = redundant.clone();
+                                    ind.push(k);
+                                    ind.reverse();
+                                    let rest = p.remove_rows(ind.clone());
+                                    let st = rest.solve_linprog(-p.mat.row(k).to_owned(), false);
+                                    match &st {
+                                        affinitree::linalg::polyhedron::PolytopeStatus::Optimal(pt) => {
+                                            if p.mat.row(k).dot(pt) <= p.bias[k] + f64::EPSILON {
+                                                redundant.push(k);
+                                            }
+                                        }
+                                        affinitree::linalg::polyhedron::PolytopeStatus::Unbounded => {
+                                            let mut rr = poly_rows(&rest).unwrap();
+                                            rr.push(Row::le(inp[k].a.iter().map(|v| -*v).collect(), Q::int(-1_000_000)));
+                                            if !feasible(&rr, d) {
+                                                lied.push(k);
+                                            }
+                                        }
+                                        _ => {}
+                                    }
+                                }
+                                let kept: Vec<usize> = (0..nrows).filter(|k| !redundant.contains(k)).collect();
+                                let orig = kept.get(i).cloned();
+                                let class = if orig.map_or(false, |o| lied.contains(&o)) { "redundant-leftover-lp-unbounded" } else { "redundant-leftover" };
+                                rep.viol(idx, class, format!("row {i} of the result {:?} is implied by the others with a margin (rows for which solve_linprog answered Unbounded although the maximum is finite: {lied:?}) | {descr}", rows_f64(&q)));
                             }
                         }
                     }
